@@ -359,12 +359,6 @@ def judge_elf(ck, data, real, env, meta):
         E = O.read_elf(data)
     except O.OracleError:
         return False            # not a well-formed image: not judged
-    if "unaligned" in meta.get("quirks", ()):
-        return False            # tables not naturally aligned: outside the specification, correspondence only
-    al = 8 if E["x64"] else 4
-    if (E["ehdr"]["e_phoff"] % al and E["phdr"]) or (E["ehdr"]["e_shoff"] % al and E["shdr"]) or \
-            (E["phdr"] and E["ehdr"]["e_phentsize"] % al) or (E["shdr"] and E["ehdr"]["e_shentsize"] % al):
-        return False
     sigs = meta.setdefault("_sigs", set())
     case = {"data": data.hex(), "meta": {k: v for k, v in meta.items() if k != "_sigs"}}
     rep = False
@@ -507,17 +501,15 @@ def check_elf(ck, drv, r, quick, env, corr):
         for k in ("functions", "variables"):
             if k in mod:
                 mod[k] = sorted(mod[k])
-        # theorem instance, evaluated: on images the model accepts with all types known and aligned tables, model tables == reference reader
+        # theorem instance, evaluated: on images the model accepts with all program-header types known, model tables == reference reader
         if mod["init"] == "ok" and ref is not None:
             t = mod["tables"]
-            al = 8 if t["x64"] else 4
             eh = t["ehdr"]
-            aligned = eh["e_phoff"] % al == 0 and eh["e_shoff"] % al == 0 and eh["e_phentsize"] % al == 0 and eh["e_shentsize"] % al == 0
             inb = (not eh["e_phoff"] or eh["e_phoff"] + eh["e_phnum"] * eh["e_phentsize"] <= len(data)) and \
                   (not eh["e_shoff"] or eh["e_shoff"] + eh["e_shnum"] * eh["e_shentsize"] <= len(data))
             known = all(p["p_type"] in env["pt"] for p in ref["phdr"])
             named = 0 < eh["e_shstrndx"] < len(ref["shdr"]) and ref["shdr"][eh["e_shstrndx"]]["sh_type"] == 3
-            if aligned and inb and known and named:
+            if inb and known and named:
                 ck.count("E.ElfWF-instances")
                 if ref["ehdr"] != eh or ref["phdr"] != t["phdr"] or ref["shdr"] != [s["hdr"] for s in t["shdr"]] or \
                         ref["names"] != [s["name"] for s in t["shdr"]]:
@@ -696,7 +688,6 @@ def main(tier):
                   failing_input_found=False)
     ck.oblige("correspondence structs/int()/HEX/SREC/ELF/PE/Mach-O", not corr, "%d disagreements" % len(corr))
     ck.assumptions += ["CPython int(bytes, base), binascii.unhexlify, bytes.strip, BytesIO.readlines, struct and utf-8 decoding are modelled, not verified",
-                       "images whose header tables are not naturally aligned for their class are outside the ELF specification: correspondence only",
                        "PE import/TLS tables and Mach-O non-segment commands are outside the model (dump compared with a struct reader only)"]
     ck.trusted += ["harness/fmt_real.py dumps of the real objects; harness/fmt_reflect.py reflection of patched struct instances",
                    "harness/fmt_oracle.py (struct-based ELF/PE/Mach-O reader, strict HEX/SREC parsers) for failing-input search; validated by llvm-readobj in the thorough tier",
